@@ -7,6 +7,7 @@ Import ListNotations.
 
 Lemma source_variant_lemma :
   mkVariant src_forward_codec src_nil_guard src_copy_status src_set_real_ip = fixed /\
+  src_real_ip_is_remote_addr = true /\
   src_single_forward = true /\ src_request_meta_add = true /\ src_reply_meta_set = true /\
   forall s, conn_class s =
             negb (Z.eqb (st_code s) 0) && Z.ltb src_class_above (st_code s)
@@ -14,5 +15,6 @@ Lemma source_variant_lemma :
 Proof.
   split; [vm_compute; reflexivity|]. split; [vm_compute; reflexivity|].
   split; [vm_compute; reflexivity|]. split; [vm_compute; reflexivity|].
+  split; [vm_compute; reflexivity|].
   intros s. reflexivity.
 Qed.
